@@ -40,10 +40,11 @@ def drive_cloud(args):
         for n in (ns if engine is None else [8, 64]):
             for sd in (seed, seed + 1):
                 key = (repr(Pi), n, sd, engine)
-                for rep in range(2):
-                    w = dict(op="sample_in_hull", d=d, engine=str(engine), n=n)
+                for rep in range(3):
+                    # third repetition: the same seed as a numpy integer (same abstract seed, other representation)
+                    w = dict(op="sample_in_hull", d=d, engine=str(engine), n=n, seedtype="int" if rep < 2 else "np.int64")
                     try:
-                        X = np.asarray(dreye.sample_in_hull(P.copy(), n, seed=sd, engine=engine), float)
+                        X = np.asarray(dreye.sample_in_hull(P.copy(), n, seed=(sd if rep < 2 else np.int64(sd)), engine=engine), float)
                         events.append(dict(ev="sample", P=Pi, n=n, count=int(X.shape[0]) if X.ndim == 2 and X.shape[1] == d else -1,
                                            pts=np.rint(X * S).astype(int).tolist(), S=S, tol=TOL, key=key, meta=w))
                     except Exception as ex:
